@@ -25,6 +25,9 @@ SCENARIOS = {
     28: "wcsnorm_s NFD of 130 precomposed characters into 140 elements (heap scratch, no space)",
     29: "wcsnorm_s NFD, 23 marks into 20 elements (no space)", 30: "wcsnorm_s NFC, 23 marks into 20 elements (no space)",
     31: "wcsicmp_s, the second operand's fold (8 x U+FB03) outgrows its scratch string", 32: "wcsicmp_s, the first operand's fold outgrows its scratch string",
+    35: "wcsnorm_s NFD, 110 plain characters and 13 marks (heap scratch and reorder buffer live together)", 36: "wcsnorm_s NFD, 110 plain characters and 23 marks",
+    37: "wcsnorm_s NFC, 110 plain characters and 13 marks (heap scratch, reorder and compose buffers)", 38: "wcsnorm_s NFC, 110 plain characters and 23 marks",
+    39: "wcsnorm_s FCC, 110 plain characters and 13 marks", 40: "wcsnorm_s FCC, 110 plain characters and 23 marks",
     33: "wcsnaticmp_s, the second operand's fold outgrows its scratch string", 34: "wcsnaticmp_s, the first operand's fold outgrows its scratch string",
 }
 
